@@ -52,6 +52,8 @@ def render(c):
                                                                                   ORDER[c['order']], lim(c['lim']))
     if sh == 'setop':
         return 'select a from int1.t1%s %s select a from int2.t2%s' % (where(c['lw']), c['op'], where(c['rw']))
+    if sh == 'setop3':
+        return 'select a from int1.t1 %s select a from int2.t2 %s select b from int1.t3' % (c['op1'], c['op2'])
     if sh == 'cte':
         inner = ' where c = 1' if c['inner'] == 'c=1' else ''
         return 'with cc as (select * from int2.t2%s) select * from int1.t1 %s cc on t1.a = cc.a%s' % (
